@@ -6,4 +6,5 @@ class Repeated(RawModel):
     def placeholder(self) -> 'RawTokenModel': ...
 
 class repeated_field:
-    pass
+    separators: list['RawTokenModel']
+    separators_before: Optional[list['RawTokenModel']]
